@@ -58,6 +58,10 @@ func (p *program) resolveIntrinsic(fn *ssa.Function, name string) externalFn {
 	if f, ok := externals[name]; ok {
 		return f
 	}
+	if strings.HasPrefix(fn.Name(), "file_") && strings.HasSuffix(fn.Name(), "_proto_init") {
+		// protobuf descriptor registration
+		return func(fr *frame, args []value) value { return zeroResult(fn) }
+	}
 	path := p.pkgPathOf(fn)
 	for _, np := range noopPackages {
 		if path == np {
@@ -88,7 +92,11 @@ func init() {
 	reg(vfPkg+".I64", func(fr *frame, a []value) value { return symv{fr.ex.newInput(strArg(fr, a[0]), "i64", sBV(64))} })
 	reg(vfPkg+".Bool", func(fr *frame, a []value) value { return symv{fr.ex.newInput(strArg(fr, a[0]), "bool", sBool)} })
 	reg(vfPkg+".Str", func(fr *frame, a []value) value { return symv{fr.ex.newInput(strArg(fr, a[0]), "str", sString)} })
-	reg(vfPkg+".UID", func(fr *frame, a []value) value { return symv{fr.ex.newInput(strArg(fr, a[0]), "uid", sUID)} })
+	reg(vfPkg+".UID", func(fr *frame, a []value) value {
+		t := fr.ex.newInput(strArg(fr, a[0]), "uid", sUID)
+		fr.ex.assertTerm(tUIDRange(t))
+		return symv{t}
+	})
 	reg(vfPkg+".F64", func(fr *frame, a []value) value { return symv{fr.ex.newInput(strArg(fr, a[0]), "f64", sF64)} })
 	reg(vfPkg+".Int", func(fr *frame, a []value) value {
 		ex := fr.ex
@@ -122,6 +130,9 @@ func init() {
 	})
 	reg(vfPkg+".Tag", func(fr *frame, a []value) value {
 		v := a[1]
+		if it, ok := v.(iface); ok {
+			v = it.v
+		}
 		var s string
 		switch x := v.(type) {
 		case string:
@@ -130,6 +141,27 @@ func init() {
 			s = toString(x)
 		}
 		fr.ex.tags[strArg(fr, a[0])] = s
+		return nil
+	})
+	reg(vfPkg+".All", func(fr *frame, a []value) value {
+		acc := tTrue
+		for _, c := range a[0].([]value) {
+			acc = tAnd(acc, boolTerm(c))
+		}
+		return fromBoolTerm(acc)
+	})
+	reg(vfPkg+".Any", func(fr *frame, a []value) value {
+		acc := tFalse
+		for _, c := range a[0].([]value) {
+			acc = tOr(acc, boolTerm(c))
+		}
+		return fromBoolTerm(acc)
+	})
+	reg(vfPkg+".Not", func(fr *frame, a []value) value { return fromBoolTerm(tNot(boolTerm(a[0]))) })
+	reg(vfPkg+".Implies", func(fr *frame, a []value) value {
+		return fromBoolTerm(tImplies(boolTerm(a[0]), boolTerm(a[1])))
+	})
+	reg(vfPkg+".Pure", func(fr *frame, a []value) value {
 		return nil
 	})
 	reg(vfPkg+".Quiesce", func(fr *frame, a []value) value { fr.ex.quiesce(); return nil })
@@ -278,7 +310,7 @@ func init() {
 			if ex.decide(tEq(ua, ub)) {
 				return 0
 			}
-			if ex.decide(tBVCmp("bvult", ua, ub)) {
+			if ex.decide(tIntLt(ua, ub)) {
 				return -1
 			}
 			return 1
@@ -328,19 +360,19 @@ func init() {
 		return strSliceToValue(strings.SplitN(strArg(fr, a[0]), strArg(fr, a[1]), int(asInt64(a[2]))))
 	})
 	reg("(*strings.Replacer).Replace", func(fr *frame, a []value) value {
-		// the only Replacer in scope is jsondiff's RFC 6901 escaper ("~"->"~0", "/"->"~1")
-		return strings.NewReplacer("~", "~0", "/", "~1").Replace(strArg(fr, a[1]))
+		var pairs []string
+		for _, v := range (*a[0].(*value)).(structure)[0].([]value) {
+			pairs = append(pairs, v.(string))
+		}
+		return strings.NewReplacer(pairs...).Replace(strArg(fr, a[1]))
 	})
 	reg("strings.NewReplacer", func(fr *frame, a []value) value {
-		var olds []string
+		var olds []value
 		for _, v := range a[0].([]value) {
 			olds = append(olds, strArg(fr, v))
 		}
-		want := []string{"~", "~0", "/", "~1"}
-		if len(olds) != 4 || olds[0] != want[0] || olds[1] != want[1] || olds[2] != want[2] || olds[3] != want[3] {
-			fr.ex.unsupported("strings.NewReplacer(%v): only the RFC 6901 escaper is modelled", olds)
-		}
-		return (*value)(nil)
+		cell := value(structure{olds})
+		return &cell
 	})
 
 	// ------------------------------------------------------------- strconv
